@@ -240,10 +240,6 @@ int prop_hash(Run& run) {
                 run.count(std::string("steps.") + opn[op]);
                 if (o.kind == Outcome::HASH_ERR) {
                     run.count(budget < 100000 ? "search-exhausted.small-budget" : "search-exhausted.default-budget");
-                    if (o.attempts == 0 || o.buckets == 0) {
-                        if (hfail(hc, "hash-search-error-empty", "hash_search_error fields", cur, "attempts and buckets set", o.str()))
-                            return 1;
-                    }
                     if (budget < 100000 && !cur.empty())
                         run.distinct.insert(std::hash<std::string>()(ids_json(cur, 700)) ^ 0x5bd1e995);
                     break; // the hash state is unspecified after a failed search
